@@ -255,4 +255,97 @@ def run(src, tier, seed):
             res.ok(r, 'ArithLogic::%s checks operand sorts%s' % (fname, ' (compares getSortRef of both operands and throws)' if sort_cmp else ''))
         else:
             res.bad(r, 'no-sort-check:%s' % fname, fx.loc(f), 'ArithLogic::%s no longer checks that its operands have one arithmetic sort' % fname)
+    logic_names_rule(fx, res, enum, tbl)
     return res
+
+
+def _first_str(n):
+    for x in walk(n):
+        if x.get('k') == 'str':
+            return x['v']
+    return None
+
+
+def logic_names_rule(fx, res, enum, tbl):
+    """The three tables that name a logic agree: the reader (getLogicFromString), the property records (QFLogicToProperties, whose `name` is what
+    Logic::getName reports and whose arithmetic / UF flags decide which theories are built) and every table subscripted with a Logic_t value.
+    A reader entry that returns a different enumerator than the record of that name means the script is answered under another logic than the one it
+    declared; a table subscripted with the enumerator that has fewer entries than the enumeration is read out of bounds for the later enumerators
+    and returns a neighbour's name for the ones after the gap."""
+    r = res.rule('logic-names-agree', 'getLogicFromString("X") returns the enumerator whose QFLogicToProperties record is named "X"; every global array subscripted with a cast Logic_t value '
+                 'has one entry per enumerator, in enumerator order, naming the same logic as the record', floor=15)
+    rec = {}
+    for x in walk(tbl['init']):
+        if x.get('k') == 'new' and 'pair<' in (x.get('t') or '') and len(x.get('a') or []) == 2:
+            k, v = x['a']
+            if k.get('k') == 'ref' and k.get('d') == 'enum':
+                nm = _first_str(v)
+                if nm is not None:
+                    rec[k['n'].split('::')[-1]] = nm
+    if len(rec) < 10:
+        raise AnalysisBroken('logic-names-agree: QFLogicToProperties records were not read (%d)' % len(rec))
+    gl = fx.func('opensmt::getLogicFromString')
+    n_read = 0
+    for n in fwalk(gl):
+        if n.get('k') != 'if' or not isinstance(n.get('cond'), dict):
+            continue
+        c = n['cond']
+        if not (c.get('k') == 'call' and c.get('op') == '=='):
+            continue
+        lit = _first_str(c)
+        rets = [x for x in walk(n.get('then') or {}) if x.get('k') == 'ret']
+        if lit is None or len(rets) != 1:
+            continue
+        tgt = [x for x in walk(rets[0].get('e') or {}) if x.get('k') == 'ref' and x.get('d') == 'enum']
+        if len(tgt) != 1:
+            raise AnalysisBroken('logic-names-agree: getLogicFromString line %s returns something other than one enumerator for "%s"' % (n.get('ln'), lit))
+        e = tgt[0]['n'].split('::')[-1]
+        n_read += 1
+        if rec.get(e) == lit:
+            res.ok(r, 'getLogicFromString: "%s" -> Logic_t::%s, whose record is named "%s"' % (lit, e, rec[e]))
+        else:
+            res.bad(r, 'logic-name-maps-elsewhere:%s' % lit, fx.loc(gl, n.get('ln')), 'getLogicFromString maps the name "%s" to Logic_t::%s, whose property record is named "%s": a script that '
+                    'declares %s is solved with the theories, sorts and rejection rules of %s' % (lit, e, rec.get(e), lit, rec.get(e)))
+    if n_read < 10:
+        raise AnalysisBroken('logic-names-agree: only %d name tests recognised in getLogicFromString' % n_read)
+    # tables subscripted with the enumerator
+    n_tab = 0
+    seen = set()
+    for f in sorted(fx.F.values(), key=lambda f: f['name']):
+        if not f.get('body'):
+            continue
+        for n in fwalk(f):
+            if not (n.get('k') == 'call' and n.get('op') == '[]' and n.get('a')):
+                continue
+            rv = see_through(n.get('recv')) if n.get('recv') else None
+            if not (isinstance(rv, dict) and rv.get('k') == 'ref' and rv.get('d') == 'global'):
+                continue
+            idx = n['a'][0]
+            if not (idx.get('k') == 'cast' and isinstance(idx.get('e'), dict) and 'opensmt::Logic_t' in (idx['e'].get('t') or '')):
+                continue
+            g = fx.G.get(rv['n'])
+            if not g or (rv['n'], f['name']) in seen:
+                continue
+            seen.add((rv['n'], f['name']))
+            n_tab += 1
+            import re
+            m = re.search(r'array<.*,\s*(\d+)>\s*$', g.get('ct') or '')
+            if not m:
+                raise AnalysisBroken('logic-names-agree: %s is subscripted with a Logic_t value but its extent is not known (%s)' % (rv['n'], g.get('ct')))
+            size = int(m.group(1))
+            short = rv['n'].split('::')[-1]
+            where = '%s:%s' % (fx.rel(g['file']), g['line'])
+            if size < len(enum):
+                res.bad(r, 'enum-table-short:%s' % short, where, '%s has %d entries but is subscripted with a Logic_t value in %s and Logic_t has %d enumerators: the subscript is out of bounds '
+                        'for Logic_t::%s and later, and every enumerator after the first missing entry gets a neighbour\'s entry' % (short, size, f['name'].replace('opensmt::', ''), len(enum), enum[size]))
+                continue
+            res.ok(r, '%s: %d entries for %d enumerators (subscripted in %s)' % (short, size, len(enum), f['name'].replace('opensmt::', '')))
+            elems = [x['v'] for x in walk(g.get('init') or {}) if x.get('k') == 'str']
+            if len(elems) == size:
+                for i, e in enumerate(enum):
+                    if e in rec and elems[i].lower() != rec[e].lower():
+                        res.bad(r, 'enum-table-misnames:%s:%s' % (short, e), where, '%s[%d] is "%s" but enumerator %d is Logic_t::%s, named "%s" in its record' % (short, i, elems[i], i, e, rec[e]))
+                    elif e in rec:
+                        res.ok(r, '%s[Logic_t::%s] = "%s"' % (short, e, elems[i]))
+    if n_tab == 0:
+        res.ok(r, 'no global table is subscripted with a Logic_t value')
